@@ -459,3 +459,12 @@ Tuple of (f, g, h) where:
 
     # constant but needed:
     wellformed = property(lambda self: True)
+
+    def _getValid(self):
+        """Check the style declaration and each contained margin rule."""
+        return self.style.valid and all(rule.valid for rule in self.cssRules)
+
+    valid = property(
+        _getValid,
+        doc='``True`` when the style declaration and all margin rules are valid.',
+    )
